@@ -2472,11 +2472,9 @@ func TestVerifC07Exhaustive(t *testing.T) {
 //   * after a read-only step the book (totals, used, free, per-pod records, with key presence) is bit-for-bit what it
 //     was before (C07:readonly-step-changed-book);
 //   * after a delete event in a well-formed shape the pod's / reservation's devices are released (C07:delete-not-released:*).
-// Reservation tombstones: FilteringResourceEventHandler runs IsObjValidActiveReservation on the TOMBSTONE, which is
-// not a *Reservation => the event is dropped before ReservationToPodEventHandler.OnDelete can unwrap it and the
-// reservation's devices are never released.  The stream is always generated and compared with the model (which follows
-// the code); the oracle clause for it is armed with VERIF_C07_RSVTOMB=1 (fingerprint
-// C07:delete-not-released:reservation-tombstone), otherwise it is tagged `finding:rsv-tombstone-dropped`.
+// Reservation tombstones: the filter IsObjValidActiveReservation stands in front of ReservationToPodEventHandler; it
+// has to unwrap a tombstone itself (fixed by c70eb65: before, a reservation delete found on re-list was dropped and the
+// reserve pod's devices stayed in use for good - fingerprint C07:delete-not-released:reservation-tombstone).
 // ---------------------------------------------------------------------------------------------------------------
 
 const (
@@ -2618,7 +2616,6 @@ type c07EvCase struct {
 	pods    []*c07EvPod
 	rsvs    []*c07EvRsv
 	nextRsv int
-	armTomb bool
 	roSteps int
 }
 
@@ -2742,8 +2739,14 @@ func (c *c07EvCase) evPodAdd(shape int, p *c07EvPod) {
 		for _, t := range p.g.types() {
 			c.noteAdd(t, p.id, p.g[t], before)
 		}
-		c.pods = append(c.pods, p)
-		if p.rsv != 0 {
+		known := false
+		for _, q := range c.pods {
+			known = known || q.id == p.id
+		}
+		if !known {
+			c.pods = append(c.pods, p)
+		}
+		if p.rsv != 0 && !known {
 			if rv := c.findRsv(p.rsv); rv != nil {
 				rv.owners = append(rv.owners, p.id)
 			}
@@ -2850,7 +2853,9 @@ func (c *c07EvCase) evRsvAdd(shape int, rv *c07EvRsv, valid, assigned, available
 		for _, t := range rv.g.types() {
 			c.noteAdd(t, rv.id, rv.g[t], before)
 		}
-		c.rsvs = append(c.rsvs, rv)
+		if c.findRsv(rv.id) == nil {
+			c.rsvs = append(c.rsvs, rv)
+		}
 	} else {
 		h.Tag("event:rsv-add:filtered")
 	}
@@ -2909,18 +2914,8 @@ func (c *c07EvCase) evRsvDelete(shape int, rv *c07EvRsv) {
 	switch {
 	case shape == c07ShObj:
 		released = true
-	case shape == c07ShTomb:
-		// the property's reading: a tombstone is a delete.  The code drops it in the filter (see the header).
-		if c.armTomb {
-			released = true
-		} else {
-			_, still := c07Read(c.nd()).pods[[2]int{0, rv.id}]
-			if still {
-				h.Tag("finding:rsv-tombstone-dropped")
-			} else {
-				released = true
-			}
-		}
+	case shape == c07ShTomb: // a tombstone is a delete
+		released = true
 	}
 	if released {
 		kind = "release"
@@ -3142,7 +3137,6 @@ func TestVerifC07Events(t *testing.T) {
 	if h == nil {
 		t.Skip("VERIF_OUT not set")
 	}
-	armTomb := os.Getenv("VERIF_C07_RSVTOMB") == "1"
 	node := &corev1.Node{ObjectMeta: metav1.ObjectMeta{Name: c07Node}}
 	suit := newPluginTestSuit(t, []*corev1.Node{node})
 	p, err := suit.proxyNew(context.TODO(), getDefaultArgs(), suit.Framework)
@@ -3171,7 +3165,7 @@ func TestVerifC07Events(t *testing.T) {
 		}
 		base.inPlay = []int{0}
 		base.da[0] = 3
-		c := &c07EvCase{c07Case: base, pl: pl, rcache: rcache, node: node, ni: nodeInfo, nextRsv: 500, armTomb: armTomb}
+		c := &c07EvCase{c07Case: base, pl: pl, rcache: rcache, node: node, ni: nodeInfo, nextRsv: 500}
 		// the handlers, wired as registerPodEventHandler does (tie_event_wiring checks the source)
 		podH := cache.ResourceEventHandlerFuncs{AddFunc: c.cache.onPodAdd, UpdateFunc: c.cache.onPodUpdate, DeleteFunc: c.cache.onPodDelete}
 		c.podH = podH
@@ -3274,7 +3268,11 @@ func TestVerifC07Events(t *testing.T) {
 				rv := newRsv()
 				switch {
 				case malformed && r.Chance(1, 4):
-					c.evRsvAdd(garbage(), rv, true, true, true)
+					sh := garbage()
+					if r.Chance(1, 3) {
+						sh = c07ShTomb // passes the (unwrapping) filter, but OnAdd takes the typed object only
+					}
+					c.evRsvAdd(sh, rv, true, true, true)
 				case r.Chance(1, 6):
 					c.evRsvAdd(c07ShObj, rv, r.Bool(), r.Bool(), r.Bool())
 				default:
@@ -3422,4 +3420,130 @@ func TestVerifC07Events(t *testing.T) {
 		"1 case in 4 with shapes client-go never delivers (pointer tombstone, tombstone of another type, nil, other object); in between read-only cycles: PreFilter + RemovePod over all or >= 3 live pods sharing GPUs + Filter + AddPod + Filter, " +
 		"PreRestoreReservation + RestoreReservation over the live reservations with their owner pods + Filter + RemovePod of owner pods; the whole book is re-read after every read-only step. " +
 		"non-trivial = at least one read-only step and one delete; distinct by op list")
+}
+
+
+// ---------------------------------------------------------------------------------------------------------------
+// C07 events, exhaustive small scope (thorough tier): EVERY sequence of 1..3 steps over
+//   pod add (typed object) of pod 1 (GPU 0, 30 %), pod 2 (GPU 0, 20 %) - both owners of reservation 500 - and pod 3 (GPU 1, 20 %)   3
+//   pod delete of pod 1 / pod 2 in each of the SIX shapes, of pod 3 as object / tombstone                                          14
+//   reservation 500 (GPU 0, 50 %) add as object / as tombstone, delete in each of the six shapes, update to Succeeded               9
+//   a preemption dry-run over the victims 3, 1, 2 in this order (first on its own GPU, second and third share one) + Filter         1
+//   a reservation restore (500 matched, owners 1 and 2) + Filter                                                                   1
+// on a node with two GPUs; full observation after every step, all oracle clauses of the events harness.
+// ---------------------------------------------------------------------------------------------------------------
+func TestVerifC07EventsExhaustive(t *testing.T) {
+	h := vOpen("C07")
+	if h == nil {
+		t.Skip("VERIF_OUT not set")
+	}
+	node := &corev1.Node{ObjectMeta: metav1.ObjectMeta{Name: c07Node}}
+	suit := newPluginTestSuit(t, []*corev1.Node{node})
+	p, err := suit.proxyNew(context.TODO(), getDefaultArgs(), suit.Framework)
+	if err != nil {
+		t.Fatalf("plugin: %v", err)
+	}
+	pl := p.(*Plugin)
+	rcache, _ := pl.handle.GetReservationCache().(*frameworkext.FakeReservationCache)
+	if rcache == nil {
+		t.Fatalf("fixture: no FakeReservationCache")
+	}
+	nodeInfo := framework.NewNodeInfo()
+	nodeInfo.SetNode(node)
+	type xop struct{ kind, who, shape int } // kind 0 pod add, 1 pod delete, 2 rsv add, 3 rsv delete, 4 rsv succeeded, 5 dry-run, 6 restore
+	var alphabet []xop
+	for who := 1; who <= 3; who++ {
+		alphabet = append(alphabet, xop{0, who, c07ShObj})
+	}
+	for who := 1; who <= 2; who++ {
+		for sh := c07ShObj; sh <= c07ShOther; sh++ {
+			alphabet = append(alphabet, xop{1, who, sh})
+		}
+	}
+	alphabet = append(alphabet, xop{1, 3, c07ShObj}, xop{1, 3, c07ShTomb}, xop{2, 500, c07ShObj}, xop{2, 500, c07ShTomb})
+	for sh := c07ShObj; sh <= c07ShOther; sh++ {
+		alphabet = append(alphabet, xop{3, 500, sh})
+	}
+	alphabet = append(alphabet, xop{4, 500, 0}, xop{5, 0, 0}, xop{6, 0, 0})
+	maxLen := vEnvInt("VERIF_C07_EVXLEN", 3)
+	idx := 0
+	run := func(hist []xop) {
+		r := h.Begin(idx)
+		idx++
+		if r == nil {
+			return
+		}
+		pl.nodeDeviceCache = newNodeDeviceCache()
+		rcache.RInfo = nil
+		base := &c07Case{h: h, r: r, cache: pl.nodeDeviceCache, exact: true, histX: true, sched: true, nextPod: 1, cur: &c07Ledger{rows: map[[2]int]*c07Row{}, pods: map[[2]int]map[int]c07Vals{}}}
+		for tt := 0; tt < 3; tt++ {
+			base.live[tt] = map[int][]c07Alloc{}
+		}
+		base.inPlay = []int{0}
+		base.da[0] = 3
+		c := &c07EvCase{c07Case: base, pl: pl, rcache: rcache, node: node, ni: nodeInfo, nextRsv: 500, mem: 16 << 30}
+		podH := cache.ResourceEventHandlerFuncs{AddFunc: c.cache.onPodAdd, UpdateFunc: c.cache.onPodUpdate, DeleteFunc: c.cache.onPodDelete}
+		c.podH = podH
+		c.rsvH = reservationutil.NewReservationToPodEventHandler(podH, reservationutil.IsObjValidActiveReservation)
+		c.inv[0] = []c07Dev{{minor: 0, healthy: true, res: c07Vec{100, c.mem, 100}, numa: -1}, {minor: 1, healthy: true, res: c07Vec{100, c.mem, 100}, numa: -1}}
+		c.applyInventory(false)
+		pods := map[int]*c07EvPod{
+			1: {id: 1, g: c07Groups{0: {{minor: 0, vec: c.fracVec(30)}}}, rsv: 500},
+			2: {id: 2, g: c07Groups{0: {{minor: 0, vec: c.fracVec(20)}}}, rsv: 500},
+			3: {id: 3, g: c07Groups{0: {{minor: 1, vec: c.fracVec(20)}}}},
+		}
+		rv := &c07EvRsv{id: 500, g: c07Groups{0: {{minor: 0, vec: c.fracVec(50)}}}, policy: schedulingv1alpha1.ReservationAllocatePolicyDefault, owners: []int{1, 2}}
+		for _, op := range hist {
+			switch op.kind {
+			case 0:
+				c.evPodAdd(op.shape, pods[op.who])
+				rv.owners = []int{1, 2}
+			case 1:
+				c.evPodDelete(op.shape, pods[op.who])
+			case 2:
+				c.evRsvAdd(op.shape, rv, true, true, true)
+			case 3:
+				c.evRsvDelete(op.shape, rv)
+			case 4:
+				if c.findRsv(500) != nil {
+					c.evRsvUpdate(rv, true)
+				}
+			case 5:
+				cy := c.beginCycle()
+				for _, id := range []int{3, 1, 2} {
+					c.dryPod(cy, true, id, pods[id].rsv)
+				}
+				c.dryFilter(cy)
+			default:
+				cy := c.beginCycle()
+				if c.findRsv(500) != nil {
+					c.restore(cy, []*c07EvRsv{rv}, nil)
+				} else {
+					c.restore(cy, nil, []*c07EvRsv{rv})
+				}
+				c.dryFilter(cy)
+			}
+		}
+		if len(hist) >= 2 {
+			h.Nontrivial()
+		}
+		h.End()
+	}
+	var rec func(hist []xop, n int)
+	rec = func(hist []xop, n int) {
+		if len(hist) == n {
+			run(hist)
+			return
+		}
+		for _, op := range alphabet {
+			rec(append(hist, op), n)
+		}
+	}
+	for n := 1; n <= maxLen; n++ {
+		rec(make([]xop, 0, n), n)
+	}
+	h.Extra("exhaustive", fmt.Sprintf("all sequences of 1..%d steps over an alphabet of %d event / read-only steps: %d cases", maxLen, len(alphabet), idx))
+	h.Close("exhaustive enumeration of every sequence of 1-3 steps over: pod add (3 pods, two sharing a GPU and owned by a reservation), pod delete in all six delivery shapes, " +
+		"reservation add (object / tombstone) / delete in all six shapes / Succeeded, a 3-victim preemption dry-run + Filter, a reservation restore + Filter; 2 GPUs; " +
+		"full book observed after every step; non-trivial = at least 2 steps")
 }
